@@ -199,7 +199,9 @@ def check(case):
     est, fit_Y, fit_W = _make(kp, center, reg, mixing, k, X, Y)
     if (k + int(round(mixing * 10))) % 2 == 0 and reg in ("none", "krr"):
         # a USED estimator: fitted before on other data of the same shape
-        Xo, Yo = X[::-1, ::-1] * 0.75 + 0.25, np.asarray(fit_Y)[::-1] * -0.5
+        Xo, Yo = np.ascontiguousarray(X[::-1, ::-1] * 0.75 + 0.25), np.ascontiguousarray(np.asarray(fit_Y, float)[::-1] * -0.5)
+        # ... with OTHER hyper-parameters (centring flipped, another mixing), restored through set_params afterwards
+        est.set_params(center=not center, mixing=0.25 if mixing == 0.5 else 0.5)
         exc0 = _fit(est, Xo, Yo, None)
         if exc0 is not None:
             return R().fail("crash:%s" % type(exc0).__name__, "first fit of the used estimator: %r" % exc0)
@@ -207,7 +209,16 @@ def check(case):
             est.transform(Xo), est.predict(Xo), est.score(Xo, Yo)
         except Exception as e0:
             return R().fail("crash:%s" % type(e0).__name__, "using the estimator before the refit: %r" % e0)
-    exc = _fit(est, X, fit_Y, fit_W)
+        est.set_params(center=center, mixing=mixing)
+        if isinstance(fit_Y, np.ndarray) and fit_Y.shape == Yo.shape and fit_W is None:
+            # the caller refills the same array objects in place and passes them again
+            Xo[...] = X
+            Yo[...] = fit_Y
+            exc = _fit(est, Xo, Yo, None)
+        else:
+            exc = _fit(est, X, fit_Y, fit_W)
+    else:
+        exc = _fit(est, X, fit_Y, fit_W)
     if exc is not None:
         return r.fail("crash:%s" % type(exc).__name__, "fit: %r" % exc)
     r.states = 0
@@ -273,6 +284,19 @@ def check(case):
             )
         elif v != "train" and v != n:
             held_out_judged = True
+        if v == sizes[1] and not r.violations:
+            # the same call with integer-typed targets of a NARROW dtype and large magnitude (counts ~ 1e5 as int32)
+            Yi = np.round(Yv * 90000.0).astype(np.int32)
+            if np.abs(Yi).max() > 0:
+                try:
+                    with warnings.catch_warnings():
+                        warnings.simplefilter("ignore")
+                        sci = float(est.score(Xv, Yi))
+                    lyi = float(((Yi.astype(float) - pv) ** 2).sum() / (Yi.astype(float) ** 2).sum())
+                    if not np.isfinite(sci) or abs(sci + lk + lyi) > 1e-6 * max(1.0, abs(lk + lyi)):
+                        r.fail("score-differs-from-documented-loss", "int32 targets, %s samples: score %.10g, -(l_K + l_Y) = %.10g" % (v, sci, -(lk + lyi)))
+                except Exception as e:
+                    r.fail("score-crash:%s" % type(e).__name__, "int32 targets: %r" % e)
     if r.violations:
         return r
 
